@@ -1,1 +1,150 @@
-From Morfuse Require Import C06.Model C06.Spec.
+(* C06/Properties.v — the property theorems of C06, and nothing else.
+   Every theorem is closed by [exact <lemma>] and followed by Print Assumptions. *)
+From Coq Require Import NArith List Bool.
+From Morfuse Require Import C06.Model C06.Spec C06.Proofs.
+Import ListNotations.
+Local Open Scope N_scope.
+
+(* For EVERY history of thread starts (any program of prints and waits, also wait 0), clock
+   advances and Executes, the code-level timer - elements in insertion order, the backward
+   scan of GetNextElement with `time <= best`, the dirty flag that lets ExecuteRunning do
+   nothing, m_time set by SetTime and the scaled time accumulated by Frame - observes
+   exactly what the due-time bag specification of C06/Spec.v observes: the same prints in
+   the same order ((due time, registration order) minimal first, only when due), the same
+   idle and waiting flags, and never an unfinished resume loop. *)
+Theorem C06_timer_refines_the_due_time_bag :
+  forall ops : list op, run ops = spec_run ops.
+Proof. exact run_refines_spec. Qed.
+Print Assumptions C06_timer_refines_the_due_time_bag.
+
+(* The resume loop always ends within its fuel (every resume removes one element and the
+   resumed thread registers at most one wait with a strictly shorter rest of program). *)
+Theorem C06_no_history_reports_a_hung_resume_loop :
+  forall ops : list op, ~ In None (run ops).
+Proof. exact never_hangs. Qed.
+Print Assumptions C06_no_history_reports_a_hung_resume_loop.
+
+Theorem C06_a_spec_resume_never_hangs :
+  forall a log, spec_resume (aweight a) a log <> None.
+Proof. exact spec_resume_never_hangs. Qed.
+Print Assumptions C06_a_spec_resume_never_hangs.
+
+Theorem C06_execute_running_never_hangs :
+  forall s a log, R s a -> execute_running (weight s) s log <> None.
+Proof. exact execute_never_hangs. Qed.
+Print Assumptions C06_execute_running_never_hangs.
+
+(* After an Execute the frame time is unchanged and nothing that is due stays waiting: a
+   waiter is resumed no later than the end of the first Execute whose frame time is >= its
+   due time. *)
+Theorem C06_spec_execute_leaves_nothing_due :
+  forall f a log a' log',
+    spec_resume f a log = Some (a', log') ->
+    frame a' = frame a /\ forall w, In w (pend a') -> frame a' < wdue w.
+Proof. exact nothing_due_remains. Qed.
+Print Assumptions C06_spec_execute_leaves_nothing_due.
+
+(* The same for the model, on every state related to a spec state by the simulation
+   relation R; [step] preserves being related (and R holds initially: the main theorem). *)
+Theorem C06_execute_running_leaves_nothing_due :
+  forall f s a log s' log',
+    R s a -> execute_running f s log = Some (s', log') ->
+    mtime s' = mtime s /\ forall e, In e (elems s') -> mtime s' < etime e.
+Proof. exact execute_leaves_nothing_due. Qed.
+Print Assumptions C06_execute_running_leaves_nothing_due.
+
+Theorem C06_every_operation_keeps_the_simulation :
+  forall s a o s' ob,
+    R s a -> step s o = Some (s', ob) -> exists a', spec_step a o = Some (a', ob) /\ R s' a'.
+Proof. exact step_keeps_R. Qed.
+Print Assumptions C06_every_operation_keeps_the_simulation.
+
+(* [spec_resume_tr] is [spec_resume] that also returns the waiters it resumed. *)
+Theorem C06_the_resume_trace_is_faithful :
+  forall f a log tr,
+    option_map (fun r => (fst (fst r), snd (fst r))) (spec_resume_tr f a log tr) =
+    spec_resume f a log.
+Proof. exact spec_resume_tr_agrees. Qed.
+Print Assumptions C06_the_resume_trace_is_faithful.
+
+(* Never early: whoever is resumed is due (due time <= frame time) and was waiting when the
+   Execute began or registered its wait during this Execute. *)
+Theorem C06_nobody_is_resumed_early :
+  forall f a log tr a' log' tr',
+    spec_resume_tr f a log tr = Some (a', log', tr') ->
+    forall w, In w tr' ->
+      In w tr \/ (wdue w <= frame a /\ (In w (pend a) \/ aseq a <= wseq w)).
+Proof. exact resumed_only_when_due. Qed.
+Print Assumptions C06_nobody_is_resumed_early.
+
+(* Exactly once: the waits resumed by one Execute are pairwise distinct registrations and
+   none of them is waiting afterwards (qinv: sequence numbers increase along the waiting
+   list and are below aseq; every operation keeps it). *)
+Theorem C06_nobody_is_resumed_twice :
+  forall f a log a' log' tr',
+    qinv (pend a) (aseq a) -> spec_resume_tr f a log [] = Some (a', log', tr') ->
+    NoDup (map wseq tr') /\
+    (forall w, In w tr' -> ~ In (wseq w) (map wseq (pend a'))) /\
+    qinv (pend a') (aseq a').
+Proof. exact resumed_exactly_once_from_empty. Qed.
+Print Assumptions C06_nobody_is_resumed_twice.
+
+Theorem C06_every_operation_keeps_the_registrations_distinct :
+  forall a o a' ob,
+    qinv (pend a) (aseq a) -> spec_step a o = Some (a', ob) -> qinv (pend a') (aseq a').
+Proof. exact spec_step_keeps_qinv. Qed.
+Print Assumptions C06_every_operation_keeps_the_registrations_distinct.
+
+(* Busy while anybody waits: in every observation of every history, waiting implies not
+   idle (there are never more waiters than live threads). *)
+Theorem C06_busy_while_a_thread_waits :
+  forall ops ob, In (Some ob) (run ops) -> waiting ob = true -> idle ob = false.
+Proof. exact busy_while_waiting. Qed.
+Print Assumptions C06_busy_while_a_thread_waits.
+
+Theorem C06_never_more_waiters_than_live_threads :
+  forall a o a' ob,
+    winv a -> spec_step a o = Some (a', ob) -> winv a' /\ exists log, ob = aobserve a' log.
+Proof. exact spec_step_keeps_winv. Qed.
+Print Assumptions C06_never_more_waiters_than_live_threads.
+
+(* Non-vacuity.  Threads 0 and 1 both wait 5 at frame 0 (due 5); a frame without clock
+   advance and a frame at time 4 resume nobody; the frame at time 5 resumes 0 then 1
+   (registration order) and thread 1's `wait 0` is resumed within the same Execute; then
+   thread 2 waits 7 (due 12), thread 3 waits 3 (due 8), thread 4's `wait 0` at start is
+   resumed at once; the clock jumps by 20 over both due times: 3 (due 8) before 2 (due 12),
+   and 3's `wait 0` (due 25) after 2; a last frame without clock advance does nothing.
+   Shown: (prints (thread, marker), idle, waiting) of every operation. *)
+Example C06_history_example :
+  map (option_map (fun o => (prints o, idle o, waiting o)))
+      (run [ OStart [IPrint 1; IWait 5; IPrint 2];
+             OStart [IPrint 3; IWait 5; IPrint 4; IWait 0; IPrint 5];
+             OExecute;
+             OAdvance 4; OExecute;
+             OAdvance 1; OExecute;
+             OStart [IWait 7; IPrint 6];
+             OStart [IWait 3; IPrint 7; IWait 0; IPrint 8];
+             OStart [IWait 0; IPrint 9];
+             OAdvance 20; OExecute;
+             OExecute ]) =
+  [ Some ([(0, 1)], false, true); Some ([(1, 3)], false, true);
+    Some ([], false, true);
+    Some ([], false, true); Some ([], false, true);
+    Some ([], false, true); Some ([(0, 2); (1, 4); (1, 5)], true, false);
+    Some ([], false, true);
+    Some ([], false, true);
+    Some ([(4, 9)], false, true);
+    Some ([], false, true); Some ([(3, 7); (2, 6); (3, 8)], true, false);
+    Some ([], true, false) ].
+Proof. vm_compute. reflexivity. Qed.
+
+(* one Execute of the specification at frame time 6 with waiters due 5, 5, 3, 9: resumed
+   (latest first, as (thread, due, seq)) and the prints; the waiter due 9 is not resumed *)
+Example C06_resume_trace_example :
+  option_map (fun r => (map (fun w => (wtid w, wdue w, wseq w)) (snd r), rev (snd (fst r)),
+                        map wtid (pend (fst (fst r)))))
+    (spec_resume_tr 10
+       (mkAbs [ mkW 0 5 0 [IPrint 2]; mkW 1 5 1 [IPrint 4; IWait 0; IPrint 5];
+                mkW 2 3 2 [IPrint 6]; mkW 3 9 3 [] ] 6 6 4 4 4) [] []) =
+  Some ([(1, 6, 4); (1, 5, 1); (0, 5, 0); (2, 3, 2)], [(2, 6); (0, 2); (1, 4); (1, 5)], [3]).
+Proof. vm_compute. reflexivity. Qed.
